@@ -42,7 +42,7 @@ def load_known_findings():
     return res
 
 
-FN_RE = re.compile(r'(?m)^[ \t]*(?:pub(?:\([^)]*\))?\s+)?(?:broadcast\s+)?(?:proof\s+|exec\s+)?fn\s+(\w+)\s*(?:<[^>{(]*>)?\s*\(')
+FN_RE = re.compile(r'(?m)^[ \t]*(?:pub(?:\([^)]*\))?\s+)?(?:broadcast\s+)?(?:proof\s+|exec\s+)?fn\s+(\w+)\s*(<[^>{(]*>)?\s*\(')
 BODY_BRACE_RE = re.compile(r'(?m)^[ \t]*\{')
 
 
@@ -73,7 +73,9 @@ def make_canary_file(meta, path):
         if not mr:
             continue
         req = mr.group(1).strip().rstrip(',')
-        if not req or re.search(r'&\s*mut\b', params):
+        # skipped: `&mut` parameters (old()/final() cannot be copied into a proof fn) and generic / lifetime-parameterised
+        # functions (their preconditions are about closures: `f.requires(())`)
+        if not req or re.search(r"&\s*('\w+\s+)?mut\b", params) or m.group(2) or "'" in params:
             continue
         try:
             e = match_brace(text, b)
